@@ -892,6 +892,7 @@ def setup_namespaces():
                       'array': _np_array, 'pad': _np_pad, 'clip': _np_clip, 'minimum': _np_minmax('minimum'), 'maximum': _np_minmax('maximum'),
                       'abs': _np_abs, 'ones': _np_ones, 'outer': _np_outer,
                       'stack': _np_stack, 'atleast_2d': _np_atleast_2d, 'repeat': _np_repeat,
+                      'ravel': lambda a: (a if isinstance(a, IArr) and a.ndim == 1 else (t_reshape(a, -1) if isinstance(a, STensor) else _np_array(a))),
                       'expand_dims': _np_expand_dims, 'newaxis': None, 'asarray': lambda x, dtype=None: _np_array(x, dtype),
                       'int32': 'int32', 'int64': 'int64', 'int_': 'int64', 'float32': 'float32', 'float64': 'float64',
                       'copy': _np_copy, 'sqrt': _np_sqrt, 'ndarray': TY_NDARRAY, 'load': Opaque_('np.load')})
@@ -919,6 +920,13 @@ def obj_attr(it, v, attr):
         q = v.cls.name + '.' + attr
         if q in m.funcs:
             return BoundMethod(v, RepoFn(v.cls.modkey, q))
+        if attr == 'training':
+            # nn.Module state that .train() / .eval() flips: an unknown boolean (both modes are explored)
+            if 'training!' not in v.a:
+                v.a['training!'] = z3.Bool('self.training')
+            return v.a['training!']
+        if attr in ('eval', 'train', 'double', 'float', 'to', 'cpu', 'cuda', 'requires_grad_', 'zero_grad'):
+            return lambda *a, **k: v
     raise Raised('AttributeError', attr)
 
 
@@ -1168,7 +1176,7 @@ def builtins(it):
          'set': _set, 'frozenset': _set,
          'slice': slice, 'Ellipsis': Ellipsis, 'id': id, 'type': lambda v: type(v), 'map': lambda f, *xs: [it.call_value(f, list(a), {}) for a in zip(*xs)],
          'enumerate': lambda xs, start=0: [(start + k, v) for k, v in enumerate(_list(xs) if not isinstance(xs, (list, tuple)) else xs)],
-         'reversed': lambda xs: list(reversed(_list(xs) if not isinstance(xs, (list, tuple)) else list(xs))),
+         'reversed': lambda xs: xs.get(slice(None, None, -1)) if type(xs).__name__ in ('SPyr', 'SList') else list(reversed(_list(xs) if not isinstance(xs, (list, tuple)) else list(xs))),
          'sum': _sum(it), 'any': _anyall(True), 'all': _anyall(False), 'bool': _truth,
          'divmod': lambda a, b: (it.binop('//', a, b), it.binop('%', a, b)), 'sorted': _sorted, 'round': round}
     for e in ('ValueError', 'NotImplementedError', 'ImportError', 'KeyError', 'IOError', 'TypeError',
